@@ -62,6 +62,12 @@ def _mk():
             seq = seq_of(it, a[0]) if len(a) == 1 else list(a)
             if not seq and "default" in k:
                 return k["default"]
+            if k.get("key") is not None or any(isinstance(x, (tuple, list, str)) for x in seq):
+                key = k.get("key")
+                try:
+                    return (min if which == "min" else max)(seq, key=(lambda x: A._sort_key(it.call_function(key, [x], {}, n))) if key is not None else A._sort_key)
+                except TypeError:
+                    raise Unsupported("min/max of abstract values with a key")
             if any(isinstance(x, Unknown) for x in seq):
                 return Unknown("min/max")
             if all(isinstance(x, int) and not isinstance(x, bool) for x in seq):
@@ -448,10 +454,16 @@ def _mk():
         return [(i + start, x) for i, x in enumerate(seq_of(it, a[0]))]
 
     def b_sorted(it, a, k, n):
-        s = seq_of(it, a[0])
+        s_ = list(seq_of(it, a[0]))
+        key = k.get("key")
         try:
-            return sorted(s)
-        except Exception:
+            return sorted(s_, key=(lambda x: A._sort_key(it.call_function(key, [x], {}, n))) if key is not None else A._sort_key, reverse=bool(k.get("reverse", False)))
+        except TypeError:
+            try:
+                if key is None:
+                    return sorted(s_, reverse=bool(k.get("reverse", False)))
+            except Exception:
+                pass
             raise Unsupported("sorted of abstract values")
 
     def b_str(it, a, k, n):
